@@ -5,6 +5,7 @@ KindSMB == (o1 :> "single") @@ (o2 :> "multi") @@ (o3 :> "blocking")
 KindSM == (o1 :> "single") @@ (o2 :> "multi")
 KindSB == (o1 :> "single") @@ (o3 :> "blocking")
 KindSS == (o1 :> "single") @@ (o2 :> "single")
+KindSZ == (o1 :> "single") @@ (o2 :> "zc")
 \* state space reduction: the last-event variable is a projection aid, not behaviour
 View == <<phase, rc, sq, kern, kcancel, cq, inflight, cflag, hasres, mores, jobs, chan, token, drv, lost, mon>>
 ====
